@@ -35,11 +35,13 @@ func init() {
 			"(D4) every access to such a state field, anywhere in the module, happens with the index's own mutex held (write-held for writes), counting the lock held by UpdateIndex around the handler and post-action callbacks, except on an index object that the accessing function has just allocated; " +
 			"(D5) per state field that is reset before the loop, the handler writes of event-dependent values are either all dominated by an 'absent / nil / empty' test of index state (first event seen wins) or none is (last wins); " +
 			"(D6) if the loop lets entries bypass the handlers because they are found in a 'seen before' set of the index, that set is reset before the loop whenever some handler-written field is (only the shape where the membership test alone decides the skip is judged); " +
-			"(D7) the snapshot of the log that UpdateIndex walks (the Values()/GetEntries() call, or the call of the helper that makes it) is taken with the index mutex write-held and the mutex is not released between the snapshot and the walk: go-orbit-db does not serialise UpdateIndex calls, and a snapshot taken outside the lock lets the call that read the older log write the state last. " +
-			"Not decided: convergence of go-ipfs-log itself (tie-break of concurrent entries, what Load/Join put into the log), equality of the log before and after reopen, that a handler stores the right value for its event type (C07), values written through state that escapes into callees outside the handlers, that a never-reset keep-first set with a single write site (devices by device key) receives the same value from every event about one key, and that skipping entries inside the loop body (continue on undecodable entries) is harmless.",
+			"(D7) the snapshot of the log that UpdateIndex walks (the Values()/GetEntries() call, or the call of the helper that makes it) is taken with the index mutex write-held and the mutex is not released between the snapshot and the walk: go-orbit-db does not serialise UpdateIndex calls, and a snapshot taken outside the lock lets the call that read the older log write the state last; " +
+			"(D8) no write to index state in a handler or post-index action depends, by data (stored value, key) or by control (a dominating decision, directly or through a callee), on the key of the own DEVICE (MemberDevice.Device() of the index's configured member device): devices of one member hold the same log and must report the same state; the handler of GroupDeviceChainKeyAdded is exempt (whether this device has sent its own chain key is device-local bookkeeping); " +
+			"(D9) the go-orbit-db CreateDBOptions with which group stores are opened (module functions with a *Group parameter that fill the options' Identity) set SortFn to a comparator with a total tie-break (sorting.SortByEntryHash): every device writes under the group's one ipfs-log identity, so concurrent entries tie on clock time and clock id and the default LastWriteWins/sorting.First orders them by arrival. " +
+			"Not decided: convergence of go-ipfs-log itself beyond the choice of comparator (what Load/Join put into the log), equality of the log before and after reopen, that a handler stores the right value for its event type (C07), values written through state that escapes into callees outside the handlers, that a never-reset keep-first set with a single write site (devices by device key) receives the same value from every event about one key, and that skipping entries inside the loop body (continue on undecodable entries) is harmless.",
 		Trusted:     []string{"golang.org/x/tools go/packages+go/ssa (v0.29.0)", "go-ipfs-log: Log.Values() is the deterministic clock-sorted traversal (oldest first), GetEntries()/RawHeads() are insertion-ordered, OrderedMap.Reverse/Slice/Copy keep or reverse that order", "slices.Reverse reverses in place", "sync.RWMutex semantics; lock identity by owner type + field"},
 		Assumptions: []string{"go-orbit-db calls UpdateIndex with the store's whole oplog after every local append, replication batch and load", "go-orbit-db does not serialise its UpdateIndex calls (local append vs replication/load may overlap)", "one mutex per index object (lock identity is the class owner type + field)"},
-		Floors:      map[string]int{"D1": 1, "D2": 2, "D3": 12, "D4": 25, "D5": 5, "D6": 1, "D7": 1},
+		Floors:      map[string]int{"D1": 1, "D2": 2, "D3": 12, "D4": 25, "D5": 5, "D6": 1, "D7": 1, "D8": 15, "D9": 1},
 		Run:         runC04,
 	})
 }
@@ -1341,6 +1343,7 @@ func runC04(c *Ctx) {
 	if n == 0 {
 		c.undecided("D1", "StoreIndex implementations", token.NoPos, "no module type implements %s.StoreIndex with an UpdateIndex that walks log entries", c04PkgOrbitIface)
 	}
+	c04RuleD9(c)
 	// advisory: other readers of the insertion-ordered entry map
 	var others []string
 	for _, fn := range w.ModFuncs {
@@ -1595,6 +1598,7 @@ func (ix *c04Index) run() bool {
 	ix.ruleD4()
 	ix.ruleD6()
 	ix.ruleD7()
+	ix.ruleD8()
 	return true
 }
 
@@ -2326,5 +2330,430 @@ func (ix *c04Index) ruleD7() {
 	}
 	if n == 0 {
 		c.undecided("D7", fnName(upd)+"+snapshot-under-lock", upd.Pos(), "the instruction of UpdateIndex that obtains the entry sequence was not identified (see D1)")
+	}
+}
+
+// ---------------------------------------------------------------------------
+// D8: the derived state does not depend on the identity of the own DEVICE. Two devices of one
+// member hold the same entries and must report the same state; what may legitimately differ
+// between members is decided on the own MEMBER identity. Every write to index state in a
+// handler / post-index action whose stored value, key or controlling conditions derive from
+// OwnMemberDevice/MemberDevice.Device() of the index's own (configuration) member device is
+// reported. Exempt by role: the handler of GroupDeviceChainKeyAdded, which records whether
+// THIS device has sent its own chain key to a member (chain keys are per device, see C05):
+// device-local bookkeeping that is not part of the exposed group state.
+
+// c04ControlDependents: blocks whose execution depends on which way the If ending block a goes.
+func c04ControlDependents(a *ssa.BasicBlock) map[*ssa.BasicBlock]bool {
+	out := map[*ssa.BasicBlock]bool{}
+	if len(a.Succs) != 2 {
+		return out
+	}
+	fn := a.Parent()
+	r := []map[*ssa.BasicBlock]bool{reach(a.Succs[0], nil), reach(a.Succs[1], nil)}
+	exitAvoiding := func(from, x *ssa.BasicBlock) bool {
+		if from == x {
+			return false
+		}
+		seen := map[*ssa.BasicBlock]bool{from: true}
+		stack := []*ssa.BasicBlock{from}
+		for len(stack) > 0 {
+			b := stack[len(stack)-1]
+			stack = stack[:len(stack)-1]
+			if len(b.Succs) == 0 {
+				return true
+			}
+			for _, s := range b.Succs {
+				if s != x && !seen[s] {
+					seen[s] = true
+					stack = append(stack, s)
+				}
+			}
+		}
+		return false
+	}
+	for _, x := range fn.Blocks {
+		if (r[0][x] && exitAvoiding(a.Succs[1], x)) || (r[1][x] && exitAvoiding(a.Succs[0], x)) {
+			out[x] = true
+		}
+	}
+	return out
+}
+
+func (ix *c04Index) ruleD8() {
+	c := ix.c
+	state := map[int]bool{}
+	for _, wr := range ix.writes {
+		if _, isCB := ix.cbFields[wr.Field]; !isCB {
+			state[wr.Field] = true
+		}
+	}
+	byFn := map[*ssa.Function][]*c04Write{}
+	for _, wr := range ix.writes {
+		if state[wr.Field] {
+			byFn[wr.Fn] = append(byFn[wr.Fn], wr)
+		}
+	}
+	// own-device reads (and calls of helpers that return a value derived from one)
+	devFns := map[*ssa.Function]bool{}
+	ownDevice := func(fn *ssa.Function) []ssa.Value {
+		var out []ssa.Value
+		for _, b := range fn.Blocks {
+			for _, in := range b.Instrs {
+				call, ok := in.(*ssa.Call)
+				if !ok {
+					continue
+				}
+				if cal := staticCallee(call.Common()); cal != nil && devFns[cal] {
+					out = append(out, call)
+					continue
+				}
+				if !c04IfaceMethod(call.Common(), pkgSecret, "Device") {
+					continue
+				}
+				recv := call.Common().Value
+				if c04IsNamed(recv.Type(), pkgSecret, "OwnMemberDevice") {
+					out = append(out, call)
+					continue
+				}
+				if f, _, _, ok := ix.rootField(recv); ok && !state[f] {
+					out = append(out, call) // the index's configured own member device
+				}
+			}
+		}
+		return out
+	}
+	exemptFn := func(fn *ssa.Function) bool {
+		for _, b := range fn.Blocks {
+			for _, in := range b.Instrs {
+				if ta, ok := in.(*ssa.TypeAssert); ok {
+					if _, isParam := ta.X.(*ssa.Parameter); isParam && c04IsNamed(c04PtrElem(ta.AssertedType), pkgTypes, "GroupDeviceChainKeyAdded") {
+						return true
+					}
+				}
+			}
+		}
+		return false
+	}
+	var fns []*ssa.Function
+	seenFn := map[*ssa.Function]bool{}
+	for f := range ix.phaseOf {
+		fns = append(fns, f)
+		seenFn[f] = true
+	}
+	if !seenFn[ix.Update] {
+		fns = append(fns, ix.Update)
+	}
+	sort.Slice(fns, func(i, j int) bool { return fns[i].String() < fns[j].String() })
+	// helpers whose result derives from the own device key ("is this my device?")
+	for changed, iter := true, 0; changed && iter < 4; iter++ {
+		changed = false
+		for _, fn := range fns {
+			if devFns[fn] || fn == ix.Update || fn.Signature.Results().Len() == 0 {
+				continue
+			}
+			seeds := ownDevice(fn)
+			if len(seeds) == 0 {
+				continue
+			}
+			t := taintFrom(fn, seeds...)
+			for _, r := range returnsOf(fn) {
+				for i, v := range retResults(r) {
+					if t[v] && !isErrorType(fn.Signature.Results().At(i).Type()) {
+						devFns[fn] = true
+						changed = true
+					}
+				}
+			}
+		}
+	}
+	// functions entered with own-device-dependent arguments or under own-device-dependent control
+	tainted := map[*ssa.Function]string{}
+	type finding struct {
+		wr  *c04Write
+		why string
+	}
+	per := map[*ssa.Function][]finding{}
+	uses := map[*ssa.Function]int{}
+	var analyse func(fn *ssa.Function, depth int)
+	done := map[*ssa.Function]bool{}
+	analyse = func(fn *ssa.Function, depth int) {
+		if done[fn] || depth > 5 {
+			return
+		}
+		done[fn] = true
+		seeds := ownDevice(fn)
+		uses[fn] = len(seeds)
+		if ctx, all := tainted[fn]; all {
+			for _, wr := range byFn[fn] {
+				per[fn] = append(per[fn], finding{wr, ctx})
+			}
+		}
+		if len(seeds) == 0 {
+			return
+		}
+		t := taintFrom(fn, seeds...)
+		dep := map[*ssa.BasicBlock]bool{}
+		for _, b := range fn.Blocks {
+			ifi, ok := b.Instrs[len(b.Instrs)-1].(*ssa.If)
+			if !ok || !t[ifi.Cond] {
+				continue
+			}
+			// plain error propagation (err != nil) is not a decision on the identity
+			if cmp, ok := ifi.Cond.(*ssa.BinOp); ok && ((isErrorType(cmp.X.Type()) && isNilConst(cmp.Y)) || (isErrorType(cmp.Y.Type()) && isNilConst(cmp.X))) {
+				continue
+			}
+			for x := range c04ControlDependents(b) {
+				dep[x] = true
+			}
+		}
+		for _, wr := range byFn[fn] {
+			if wr.Fresh {
+				continue // emptying a field says nothing about whose event it was
+			}
+			switch {
+			case wr.Val != nil && t[wr.Val]:
+				per[fn] = append(per[fn], finding{wr, "the stored value derives from the own device key"})
+			case wr.Key != nil && t[wr.Key]:
+				per[fn] = append(per[fn], finding{wr, "the key derives from the own device key"})
+			case dep[wr.Instr.Block()]:
+				per[fn] = append(per[fn], finding{wr, "whether it happens is decided by a comparison with the own device key"})
+			}
+		}
+		// callees inside the handler code
+		for _, e := range ix.w.callGraph().callees[fn] {
+			if _, in := ix.phaseOf[e.Callee]; !in {
+				continue
+			}
+			why := ""
+			if dep[e.Site.Block()] {
+				why = "called from " + fnName(fn) + " under a comparison with the own device key"
+			}
+			for _, a := range e.Site.Common().Args {
+				if t[a] {
+					if _, isRecv := a.(*ssa.Parameter); isRecv {
+						continue
+					}
+					why = "called from " + fnName(fn) + " with a value derived from the own device key"
+				}
+			}
+			if why != "" && len(byFn[e.Callee]) > 0 {
+				if _, had := tainted[e.Callee]; !had {
+					tainted[e.Callee] = why
+					delete(done, e.Callee)
+					analyse(e.Callee, depth+1)
+				}
+			}
+		}
+	}
+	for _, fn := range fns {
+		analyse(fn, 0)
+	}
+	nUses := 0
+	for _, fn := range fns {
+		if len(byFn[fn]) == 0 && uses[fn] == 0 {
+			continue
+		}
+		nUses += uses[fn]
+		construct := fnName(fn) + "+own-device-independence"
+		pos := fn.Pos()
+		fs := per[fn]
+		if len(fs) == 0 {
+			c.ok("D8", construct, pos, "%d write(s) to index state, none depending on the own device identity (%d read(s) of the own device key)", len(byFn[fn]), uses[fn])
+			continue
+		}
+		if exemptFn(fn) {
+			flds := map[string]bool{}
+			for _, f := range fs {
+				flds[ix.fieldName(f.wr.Field)] = true
+			}
+			var names []string
+			for n := range flds {
+				names = append(names, n)
+			}
+			sort.Strings(names)
+			c.ok("D8", construct, pos, "handler of GroupDeviceChainKeyAdded: {%s} record whether THIS device has sent its own chain key (chain keys are per device): device-local bookkeeping, exempt", strings.Join(names, ","))
+			continue
+		}
+		var msgs []string
+		for _, f := range fs {
+			msgs = append(msgs, fmt.Sprintf("%s written at %s: %s", ix.fieldName(f.wr.Field), c.pos(posOf(f.wr.Instr)), f.why))
+		}
+		sort.Strings(msgs)
+		c.fail("D8", construct, posOf(fs[0].wr.Instr), "index state depends on the own DEVICE identity: two devices of one member that hold the same entries report different state (decide on the own member, MemberDevice.Member(), instead): %s", strings.Join(msgs, "; "))
+	}
+	c.count("reads_of_own_device_key_in_index_code", nUses)
+}
+
+func c04PtrElem(t types.Type) types.Type {
+	if p, ok := types.Unalias(t).(*types.Pointer); ok {
+		return p.Elem()
+	}
+	return t
+}
+
+// ---------------------------------------------------------------------------
+// D9: the "deterministic clock-sorted traversal" D1 relies on is deterministic only if the
+// log's sort function is a total order on the entries. All devices write a group's logs under
+// one ipfs-log identity (the group signing key), so concurrent entries can carry the same clock
+// time AND the same clock id; go-ipfs-log's default comparator (LastWriteWins, also behind
+// FirstWriteWins) then ends in sorting.First, which answers 1 whatever the argument order: the
+// relative order of such entries in Values() is the order in which they were joined. The
+// options with which weshnet opens its group stores (the module functions that fill the
+// Identity of a go-orbit-db CreateDBOptions for a *Group) must therefore set SortFn to a
+// comparator with a total tie-break (sorting.SortByEntryHash).
+
+const c04PkgSorting = "berty.tech/go-ipfs-log/entry/sorting"
+
+func c04ComparatorOf(v ssa.Value, depth int) (name string, total, known bool) {
+	if depth > 4 || v == nil {
+		return "an undetermined value", false, false
+	}
+	switch x := v.(type) {
+	case *ssa.Const:
+		if x.Value == nil {
+			return "unset", false, true
+		}
+	case *ssa.Function:
+		k := funcKey(x)
+		switch k {
+		case c04PkgSorting + ".SortByEntryHash":
+			return "sorting.SortByEntryHash", true, true
+		case c04PkgSorting + ".LastWriteWins", c04PkgSorting + ".FirstWriteWins", c04PkgSorting + ".First":
+			return "sorting." + x.Name(), false, true
+		}
+		return k, false, false
+	case *ssa.ChangeType:
+		return c04ComparatorOf(x.X, depth+1)
+	case *ssa.MakeClosure:
+		if f, ok := x.Fn.(*ssa.Function); ok {
+			return funcKey(f), false, false
+		}
+	case *ssa.Call:
+		if calleeKey(x.Common()) == c04PkgSorting+".NoZeroes" && len(x.Call.Args) == 1 {
+			return c04ComparatorOf(x.Call.Args[0], depth+1)
+		}
+	case *ssa.UnOp:
+		if x.Op == token.MUL {
+			if fa, ok := x.X.(*ssa.FieldAddr); ok {
+				base := fa.X
+				if ph, isPhi := base.(*ssa.Phi); isPhi {
+					for _, e := range ph.Edges {
+						if _, isParam := e.(*ssa.Parameter); isParam {
+							base = e
+						}
+					}
+				}
+				if _, isParam := base.(*ssa.Parameter); isParam {
+					return "the caller's value (may be unset)", false, true
+				}
+			}
+		}
+	}
+	return "an undetermined value", false, false
+}
+
+func c04RuleD9(c *Ctx) {
+	w := c.W
+	n := 0
+	for _, fn := range w.ModFuncs {
+		hasGroup := false
+		for _, p := range fn.Params {
+			if c04IsNamed(c04PtrElem(p.Type()), pkgTypes, "Group") {
+				hasGroup = true
+			}
+		}
+		if !hasGroup {
+			continue
+		}
+		// option objects whose Identity this function fills
+		objs := map[ssa.Value]bool{}
+		var order []ssa.Value
+		for _, b := range fn.Blocks {
+			for _, in := range b.Instrs {
+				st, ok := in.(*ssa.Store)
+				if !ok {
+					continue
+				}
+				fa, ok := st.Addr.(*ssa.FieldAddr)
+				if !ok || !c04IsNamed(c04PtrElem(fa.X.Type()), c04PkgOrbitIface, "CreateDBOptions") {
+					continue
+				}
+				stt := c04PtrElem(fa.X.Type()).Underlying().(*types.Struct)
+				if stt.Field(fa.Field).Name() == "Identity" && !isNilConst(st.Val) && !objs[fa.X] {
+					objs[fa.X] = true
+					order = append(order, fa.X)
+				}
+			}
+		}
+		for _, obj := range order {
+			n++
+			c.analysed(fn)
+			// stores to obj.SortFn
+			type sf struct {
+				st          *ssa.Store
+				name        string
+				total, know bool
+			}
+			var stores []sf
+			if obj.Referrers() != nil {
+				for _, r := range *obj.Referrers() {
+					fa, ok := r.(*ssa.FieldAddr)
+					if !ok || fa.X != obj || fa.Referrers() == nil {
+						continue
+					}
+					if c04PtrElem(fa.X.Type()).Underlying().(*types.Struct).Field(fa.Field).Name() != "SortFn" {
+						continue
+					}
+					for _, r2 := range *fa.Referrers() {
+						if st, ok := r2.(*ssa.Store); ok && st.Addr == ssa.Value(fa) {
+							nm, tot, kn := c04ComparatorOf(st.Val, 0)
+							stores = append(stores, sf{st, nm, tot, kn})
+						}
+					}
+				}
+			}
+			base := fnName(fn) + "+CreateDBOptions.SortFn"
+			why := "all devices write under the group's single ipfs-log identity, so concurrent entries can tie on clock time and clock id; the tie-break must not depend on the order of the arguments"
+			if len(stores) == 0 {
+				c.fail("D9", base+"+unset", fn.Pos(), "the options with which group stores are opened leave SortFn unset: go-ipfs-log falls back to LastWriteWins whose last tie-break (sorting.First) answers 1 for (a,b) and for (b,a); Log.Values() then lists such entries in the order they were joined and replicas holding the same entries index different states (%s; sorting.SortByEntryHash is total)", why)
+				continue
+			}
+			// the effective value: every success return must be dominated by a store of a total comparator
+			okAll := true
+			var bad sf
+			for _, s := range stores {
+				if !s.total {
+					okAll = false
+					bad = s
+				}
+			}
+			if okAll {
+				dom := false
+				for _, s := range stores {
+					all := true
+					for _, r := range returnsOf(fn) {
+						if isSuccessReturn(r) && !(s.st.Block() == r.Block() || s.st.Block().Dominates(r.Block())) {
+							all = false
+						}
+					}
+					dom = dom || all
+				}
+				if dom {
+					c.ok("D9", base+"+"+stores[0].name, stores[0].st.Pos(), "group stores are opened with %s: concurrent entries with equal clock time and id are ordered by entry hash on every replica", stores[0].name)
+				} else {
+					c.fail("D9", base+"+unset on some path", stores[0].st.Pos(), "SortFn is set to %s only on some paths to the success return; elsewhere the order-dependent default applies (%s)", stores[0].name, why)
+				}
+				continue
+			}
+			if !bad.know {
+				c.undecided("D9", base+"+"+bad.name, bad.st.Pos(), "SortFn is set to %s: whether its tie-break is a total order is not decided (%s)", bad.name, why)
+			} else {
+				c.fail("D9", base+"+"+bad.name, bad.st.Pos(), "group stores are opened with SortFn = %s, whose tie-break for entries with equal clock time and id depends on the order of the arguments / is the order-dependent default (%s; sorting.SortByEntryHash is total)", bad.name, why)
+			}
+		}
+	}
+	if n == 0 {
+		c.undecided("D9", "CreateDBOptions builder", token.NoPos, "no module function with a *Group parameter fills the Identity of a go-orbit-db CreateDBOptions: the options of the group stores were not found")
 	}
 }
